@@ -127,6 +127,9 @@ def d3(chk, prog):
                (["-", "Antitarget", "Antitarget", "-", "C", "-", "D", "C"], ["-", "C,D"])]
     # (last layout: bins 3 and 4 lie between the two segments -- filtered out at a breakpoint -- and belong to neither)
     layouts = [(g_, w_, [[0, 1, 2, 3], [4, 5, 6, 7]]) for g_, w_ in layouts] + [(["B", "Antitarget", "A", "X", "Y", "-", "D", "C"], ["B,A", "D,C"], [[0, 1, 2], [5, 6, 7]])]
+    # a segment over a single bin (small contig, amplicon): the same rules -- an ignored name gives no gene, a named bin its name
+    layouts += [(["Antitarget", "A", "B", "A", "C", "-", "D", "C"], ["-", "A,B,C,D"], [[0], [1, 2, 3, 4, 5, 6, 7]]), (["A", "B", "B", "B", "B", "B", "B", "CGH"], ["A,B", "-"], [[0, 1, 2, 3, 4, 5, 6], [7]]),
+                (["G", "A", "B", "A", "C", "-", "D", "C"], ["G", "A,B,C,D"], [[0], [1, 2, 3, 4, 5, 6, 7]])]
     for wkind, (genes, wantg, groups) in itertools.product(("positive", "zero-second", "absent"), layouts):
         W.reset()
         n = 8
@@ -484,9 +487,9 @@ def d5(chk, prog):
     for m, procs, save in itertools.product(methods + ["bogus"], [1, 3], [False, True]):
         W.reset()
         model = Model()
-        calls, concat_args = [], []
-        whole = make_ga("CopyNumArray", [dict(chromosome=c, start=i, end=i + 1, gene="g", log2=Term.sym(f"v{i}")) for i, (c, _a) in enumerate(arms)], {"sample_id": "S", "part": "whole"}, index="any", exact=True)
-        parts = [make_ga("CopyNumArray", [dict(chromosome=c, start=i, end=i + 1, gene="g", log2=Term.sym(f"v{i}"))], {"sample_id": "S", "part": f"{c}{a}"}, exact=True) for i, (c, a) in enumerate(arms)]
+        calls, concat_args, cols_seen = [], [], []
+        whole = make_ga("CopyNumArray", [dict(chromosome=c, start=i, end=i + 1, gene="g", log2=Term.sym(f"v{i}"), depth=Term.sym(f"d{i}", 0, INF), weight=Fr(1, 2), gc=Fr(2, 5), spread=Fr(1, 10)) for i, (c, _a) in enumerate(arms)], {"sample_id": "S", "part": "whole"}, index="any", exact=True)
+        parts = [make_ga("CopyNumArray", [dict(chromosome=c, start=i, end=i + 1, gene="g", log2=Term.sym(f"v{i}"), depth=Term.sym(f"d{i}", 0, INF), weight=Fr(1, 2), gc=Fr(2, 5), spread=Fr(1, 10))], {"sample_id": "S", "part": f"{c}{a}"}, exact=True) for i, (c, a) in enumerate(arms)]
         model.method_prims["by_arm"] = lambda it, g, *a, **k: [(f"{c}{a}", p) for (c, a), p in zip(arms, parts)]
         model.prims["cnvlib.parallel.pick_pool"] = lambda it, n: PoolStub(it, n)
         model.method_hooks.append(pool_hook)
@@ -503,6 +506,8 @@ def d5(chk, prog):
             cn = b["cnarr"]
             calls.append((cn.meta.get("part"), b["method"], b["diploid_parx_genome"], repr(b["threshold"]), b["variants"], b["skip_low"], b["skip_outliers"], b["min_weight"],
                           b["save_dataframe"], b["rscript_path"], b["smooth_cbs"]))
+            # the bins arrive with every column they came with (depth feeds the segments' depth and the null-coverage test, whatever the number of processes)
+            cols_seen.append(tuple(sorted(c_ for c_ in cn.data.cols if not c_.startswith("__"))))
             out = make_ga("CopyNumArray", [dict(chromosome="chr1", start=0, end=1, gene="-", log2=0, probes=1)], {"sample_id": "S", "segments_of": cn.meta.get("part")}, exact=True)
             return (out, f"header\nrows of {cn.meta.get('part')}\n") if b["save_dataframe"] else out
         model.prims["cnvlib.segmentation._do_segmentation"] = worker
@@ -534,11 +539,13 @@ def d5(chk, prog):
         else:
             # smooth_cbs concerns cbs only; the whole-array call may leave it at its default
             ok = len(calls) == 1 and calls[0][:10] == ("whole", m) + base and not concat_args
+        all_cols = ("chromosome", "depth", "end", "gc", "gene", "log2", "spread", "start", "weight")
+        ok = ok and all(cs == all_cols for cs in cols_seen)
         res = out[0] if (save and isinstance(out, tuple)) else out
         ok = ok and raised is None and isinstance(res, GA) and res.meta.get("segments_of") == ("concat" if per_arm else "whole")
         if save and raised is None:
             ok = ok and isinstance(out, tuple) and len(out) == 2 and (out[1] == ("header\n" + "".join(f"rows of {c}{a}\n" for c, a in arms)) if per_arm else out[1] == "header\nrows of whole\n")
-        tb.cell(ok, dict(method=m, processes=procs, save_dataframe=save, worker_calls=[c[:2] for c in calls], concat=concat_args, raised=raised))
+        tb.cell(ok, dict(method=m, processes=procs, save_dataframe=save, worker_calls=[c[:2] for c in calls], concat=concat_args, columns_reaching_the_worker=sorted(set(cols_seen)), raised=raised))
     tb.done("do_segmentation does not segment every arm (or the whole array) exactly once, in order, with the caller's options, or combines the parts out of order")
 
 
